@@ -236,7 +236,7 @@ func (vx *Vaxis) NewStyledString(s string, defaultStyle Style) *StyledString {
 			grapheme, s, width, _ = uniseg.FirstGraphemeClusterInString(s, -1)
 			switch {
 			case vx.caps.unicodeCore || vx.caps.explicitWidth:
-				// we're done
+				width = clusterWidth(width)
 			case vx.caps.noZWJ:
 				width = gwidth(grapheme, noZWJ)
 			default:
